@@ -45,7 +45,23 @@ class DummyPM:
         self.aircraft_class, self.number_of_engines = aircraft_class, n_eng
 
 
-def gen_pm(rng, hostile=True):
+class DummyPMNoEDB(DummyPM):
+    """A model whose LTO engine identifier has no entry in the engine data base: like the
+    real model's lazy ``edb`` property, reading it raises ValueError."""
+
+    def __init__(self, lto, edb, apu, aircraft_class, n_eng):
+        self.lto, self.apu = lto, apu
+        self.aircraft_class, self.number_of_engines = aircraft_class, n_eng
+
+    @property
+    def edb(self):
+        raise ValueError("UID H1 not found in sheet 'Gaseous Emissions and Smoke'")
+
+
+NO_EDB_MSG = "not found in sheet"
+
+
+def gen_pm(rng, hostile=True, no_edb=False):
     from AEIC.performance.apu import APU
     from AEIC.performance.edb import EDBEntry
     from AEIC.performance.types import LTOPerformance, ThrustMode, ThrustModeValues
@@ -110,7 +126,9 @@ def gen_pm(rng, hostile=True):
                   HC_g_per_kg=rng.uniform(0.05, 5), PM10_g_per_kg=rng.uniform(0.0, 0.3))
         apu_kind = 'normal'
     ac = rng.choice(list(AircraftClass))
-    pm = DummyPM(lto, edb, apu, ac, rng.choice([1, 2, 2, 3, 4]))
+    pm = (DummyPMNoEDB if no_edb else DummyPM)(lto, edb, apu, ac, rng.choice([1, 2, 2, 3, 4]))
+    if no_edb:
+        nv = 'no-engine-database-entry'
     pm.desc = {'flows': kind, 'nvpm_data': nv, 'apu': apu_kind, 'class': str(ac),
                'n_eng': pm.number_of_engines, 'fuel_flow': ff}
     pm.ff = ff
